@@ -48,7 +48,9 @@ C02_OneNotification ==
      /\ Len(TerminalNotes(S)) = (IF Terminated(S) THEN 1 ELSE 0)
      /\ Terminated(S) => TerminalNotes(S)[1][2] = (CASE S.st = "FINISHED" -> "finished" [] S.st = "EXCEPTED" -> "excepted" [] OTHER -> "killed")
 C02_ClosedOnce == CleanFor("C02") => (S.closed = Terminated(S) /\ S.cleaned = (IF Terminated(S) THEN 1 ELSE 0))
-C02_TaskReturns == (CleanFor("C02") /\ Quiescent /\ Terminated(S)) => S.task.pc = "done"
+\* (a task cancelled by its owner while parked at the pause gate - EnvTaskCancel - cannot return: the rest of C02 still binds)
+OwnerCancelled == S.task.pc = "failed" /\ S.task.err = "CancelledError"
+C02_TaskReturns == (CleanFor("C02") /\ Quiescent /\ Terminated(S)) => (S.task.pc = "done" \/ OwnerCancelled)
 
 \* a process that could not be constructed does not exist: the failure reached the caller of the constructor, and only
 \* a failure raised while the initial state was being entered does that
